@@ -8,6 +8,7 @@ from __future__ import annotations
 
 import copy
 import itertools
+import json
 import pickle
 
 from ..models.containers import HM, HS, MM, multi_items
@@ -35,7 +36,7 @@ ASSUMPTIONS = [
 TIERS = {"quick": dict(nshards=16, exh_len={"MultiDict": 2, "Headers": 2, "HeaderSet": 3}, rand=900, rand_len=(3, 40)),
          "thorough": dict(nshards=64, exh_len={"MultiDict": 3, "Headers": 3, "HeaderSet": 4}, rand=6000, rand_len=(3, 40))}
 EXHAUSTIVE_SUBSPACES = {
-    "quick": ["all histories of length <= 2 over the fixed operation-instance sets of MultiDict (38 instances) and Headers (44), length <= 3 for HeaderSet (22), from 11 (MultiDict, Headers) / 9 (HeaderSet) initial states, including mappings whose collections are empty"],
+    "quick": ["all histories of length <= 2 over the fixed operation-instance sets of MultiDict (38 instances) and Headers (48), length <= 3 for HeaderSet (22), from 11 (MultiDict, Headers) / 9 (HeaderSet) initial states, including mappings whose collections are empty"],
     "thorough": ["all histories of length <= 3 for MultiDict and Headers from 11 initial states; length <= 4 for HeaderSet (2 initial states at length 4)"],
 }
 K = ["a", "A", "b"]
@@ -297,7 +298,9 @@ def h_ops():
                 ("pop", k), ("setdefault", k, "2")]
     ops += [("popidx",), ("popnone",), ("popitem",), ("setlistdefault", "a", ("x", "1")), ("setlistdefault", "b", ("2",)),
             ("update", 0, "a"), ("update", 1, "A"), ("update", 2, "b"), ("update", 3, "a"), ("extend", 0, "a"), ("extend", 1, "b"), ("extend", 2, "A"),
-            ("clear",), ("ior", "a"), ("setidx", "A"), ("setslice", "b"), ("delidx",), ("delslice",), ("copy", "a"), ("or", "b"), ("popdefault", "A"), ("add_header", "b")]
+            ("clear",), ("ior", "a"), ("setidx", "A"), ("setslice", "b"), ("delidx",), ("delslice",), ("copy", "a"), ("or", "b"), ("popdefault", "A"), ("add_header", "b"),
+            # a value the container refuses (line break): the call raises and, in the model, nothing happens
+            ("refused", "set", "a"), ("refused", "setitem", "A"), ("refused", "add", "b"), ("refused", "setdefault", "z")]
     return ops
 
 
@@ -308,6 +311,14 @@ def h_apply(W, h, m, op):
     if name == "add":
         h.add(op[1], op[2])
         m.add(op[1], op[2])
+    elif name == "refused":
+        try:
+            {"set": lambda: h.set(op[2], "bad\nvalue"), "setitem": lambda: h.__setitem__(op[2], "bad\rvalue"), "add": lambda: h.add(op[2], "v", p="bad\nvalue"),
+             "setdefault": lambda: h.setdefault(op[2], "bad\nvalue")}[op[1]]()
+            r = "accepted"
+        except ValueError:
+            r = "ValueError"
+        e = "ValueError"
     elif name == "add_header":
         h.add_header(op[1], "v", p="q r")
         m.add(op[1], 'v; p="q r"')
@@ -875,6 +886,43 @@ def laws(W, rec):
         except Exception as e:
             law("C08/combined-deepcopy", False, f"deepcopy then read raised {type(e).__name__}: {e}", case)
         reject_all(c, MUT_MD, lambda o: sorted(o.items(multi=True)), "CombinedMultiDict", case)
+    # pickles travel: a container hashed and pickled here, loaded by an interpreter with another hash seed, is equal to
+    # one built there and hashes like it (sessions / caches shared between worker processes)
+    import os
+    import subprocess
+    import sys as _sys
+
+    blobs = []
+    for pairs in pairs_pool[1:4]:
+        for cls in (DS.ImmutableMultiDict, DS.ImmutableDict, DS.ImmutableTypeConversionDict):
+            d = cls(pairs if cls is DS.ImmutableMultiDict else dict(pairs))
+            hash(d)  # the history that matters: hashed before it is pickled
+            blobs.append((cls.__name__, pairs, pickle.dumps(d, pickle.HIGHEST_PROTOCOL).hex()))
+        blobs.append(("ImmutableList", pairs, pickle.dumps((lambda l_: (hash(l_), l_)[1])(DS.ImmutableList([v for k, v in pairs])), pickle.HIGHEST_PROTOCOL).hex()))
+    child = (
+        "import sys, json, pickle\n"
+        "from werkzeug import datastructures as DS\n"
+        "out = []\n"
+        "for name, pairs, blob in json.load(sys.stdin):\n"
+        "    pairs = [tuple(p) for p in pairs]\n"
+        "    cls = getattr(DS, name)\n"
+        "    local = cls(pairs) if name == 'ImmutableMultiDict' else cls([v for k, v in pairs]) if name == 'ImmutableList' else cls(dict(pairs))\n"
+        "    loaded = pickle.loads(bytes.fromhex(blob))\n"
+        "    out.append([name, loaded == local, hash(loaded) == hash(local), loaded in {local}])\n"
+        "print(json.dumps(out))\n"
+    )
+    env = dict(os.environ, PYTHONHASHSEED="4242", PYTHONPATH=os.environ.get("VERIF_SRC", "/repo/src"))
+    try:
+        cp = subprocess.run([_sys.executable, "-c", child], input=json.dumps(blobs), capture_output=True, text=True, timeout=120, env=env)
+        res = json.loads(cp.stdout) if cp.returncode == 0 else None
+    except Exception:  # noqa: BLE001
+        res = None
+    if res is None:
+        rec.observe("cross_process_pickle_check_failed_to_run")
+    else:
+        for (name, pairs, _), (_, eq, heq, member) in zip(blobs, res):
+            law(f"C08/pickle-across-processes:{name}", eq and heq and member, f"loaded under another hash seed: == local {eq}, same hash {heq}, found in a set of the local one {member}", pairs)
+        rec.observe("cross_process_pickles_checked", len(res))
     # FileMultiDict
     import io
 
